@@ -296,10 +296,6 @@ void update_histogram_queue_entry(SequenceControlSet *scs_ptr, EncodeContext *en
     return;
 }
 
-void svt_av1_build_quantizer(AomBitDepth bit_depth, int32_t y_dc_delta_q, int32_t u_dc_delta_q,
-                             int32_t u_ac_delta_q, int32_t v_dc_delta_q, int32_t v_ac_delta_q,
-                             Quants *const quants, Dequants *const deq);
-
 /* Initial Rate Control Kernel */
 
 /*********************************************************************************
@@ -356,33 +352,6 @@ void *initial_rate_control_kernel(void *input_ptr) {
             SequenceControlSet *scs_ptr = (SequenceControlSet *)
                                               pcs_ptr->scs_wrapper_ptr->object_ptr;
             EncodeContext *encode_context_ptr = (EncodeContext *)scs_ptr->encode_context_ptr;
-            if (pcs_ptr->picture_number == 0) {
-                Quants *const   quants_8bit = &scs_ptr->quants_8bit;
-                Dequants *const deq_8bit    = &scs_ptr->deq_8bit;
-                svt_av1_build_quantizer(
-                    AOM_BITS_8,
-                    pcs_ptr->frm_hdr.quantization_params.delta_q_dc[AOM_PLANE_Y],
-                    pcs_ptr->frm_hdr.quantization_params.delta_q_dc[AOM_PLANE_U],
-                    pcs_ptr->frm_hdr.quantization_params.delta_q_ac[AOM_PLANE_U],
-                    pcs_ptr->frm_hdr.quantization_params.delta_q_dc[AOM_PLANE_V],
-                    pcs_ptr->frm_hdr.quantization_params.delta_q_ac[AOM_PLANE_V],
-                    quants_8bit,
-                    deq_8bit);
-
-                if (scs_ptr->static_config.encoder_bit_depth == AOM_BITS_10) {
-                    Quants *const   quants_bd = &scs_ptr->quants_bd;
-                    Dequants *const deq_bd    = &scs_ptr->deq_bd;
-                    svt_av1_build_quantizer(
-                        AOM_BITS_10,
-                        pcs_ptr->frm_hdr.quantization_params.delta_q_dc[AOM_PLANE_Y],
-                        pcs_ptr->frm_hdr.quantization_params.delta_q_dc[AOM_PLANE_U],
-                        pcs_ptr->frm_hdr.quantization_params.delta_q_ac[AOM_PLANE_U],
-                        pcs_ptr->frm_hdr.quantization_params.delta_q_dc[AOM_PLANE_V],
-                        pcs_ptr->frm_hdr.quantization_params.delta_q_ac[AOM_PLANE_V],
-                        quants_bd,
-                        deq_bd);
-                }
-            }
             if (scs_ptr->static_config.enable_tpl_la && scs_ptr->in_loop_me == 0) {
 #if FIX_DDL
                 svt_set_cond_var(&pcs_ptr->me_ready, 1);
